@@ -405,6 +405,7 @@ static int run_case(void) {
 	else if (OP("fp_dbl")) do_un(op, w_dbl, al);
 	else if (OP("fp_dbl_basic")) do_un(op, fp_dbl_basic, al);
 	else if (OP("fp_dbl_integ")) do_un(op, fp_dbl_integ, al);
+	else if (OP("fp_trs")) do_un(op, fp_trs, al);
 	else if (OP("fp_hlv")) do_un(op, w_hlv, al);
 	else if (OP("fp_hlv_basic")) do_un(op, fp_hlv_basic, al);
 	else if (OP("fp_hlv_integ")) do_un(op, fp_hlv_integ, al);
